@@ -85,6 +85,33 @@ func runC20(ctx *core.Ctx) {
 					ctx.Bad("S1", shortFn(f)+"#global-write"+itoa(bad), w.Instr.Pos(), "package variable %s written on the request path", w.Glob.Name())
 				}
 			}
+			// the address of a Server field is used only to read the field or to call one of the caches:
+			// anything else (a scratch buffer reset and refilled per request, say) is shared mutable state
+			graph(p, f).Instrs(func(i ssa.Instruction) {
+				fa, ok := i.(*ssa.FieldAddr)
+				if !ok || !isNamed(fa.X.Type(), gpPkg, "Server") {
+					return
+				}
+				for _, q := range ssax.Referrers(fa) {
+					okUse := false
+					switch x := q.(type) {
+					case *ssa.UnOp:
+						okUse = x.Op == token.MUL
+					case *ssa.DebugRef:
+						okUse = true
+					case ssa.CallInstruction:
+						okUse = strings.HasPrefix(ssax.CalleeName(x.Common()), "(*"+parPkg+".Cache).")
+					}
+					if !okUse {
+						bad++
+						fld := "?"
+						if fv := ssax.FieldOf(fa); fv != nil {
+							fld = fv.Name()
+						}
+						ctx.Bad("S1", shortFn(f)+"#server-state"+itoa(bad), q.Pos(), "Server.%s is used on the request path other than by reading it or calling a cache (%s): state shared between requests is being changed", fld, q.String())
+					}
+				}
+			})
 			// stores through the result of a cache Do
 			graph(p, f).Instrs(func(i ssa.Instruction) {
 				var addr ssa.Value
@@ -490,6 +517,22 @@ func runC20(ctx *core.Ctx) {
 				}
 			}
 			ctx.Check(bad == "" && n > 0 && !ex.Overflow, "S6", "goproxytest.readArchive#nil-unless-found", cb.Pos(), "the cached value is non-nil only on paths where the lookup error is nil (%d return paths) %s", n, bad)
+		}
+	}
+	// ---- S10: names are cut by suffix, not by character set
+	ctx.Rule("S10", "extensions are removed as suffixes: in the module-list reader no strings.Trim/TrimLeft/TrimRight call has a constant cut-set of more than one byte (TrimRight(name, \".txt\") also eats the end of a version such as v1.2.0-next)", 0)
+	if rl := p.Func("goproxytest", "(*Server).readModList"); rl != nil {
+		n := 0
+		for _, c := range graph(p, rl).Calls("strings.Trim", "strings.TrimLeft", "strings.TrimRight") {
+			cut, isK := ssax.ConstString(c.Call.Args[1])
+			if !isK || len(cut) < 2 {
+				continue
+			}
+			n++
+			ctx.Bad("S10", "goproxytest.readModList#cutset"+itoa(n), c.Pos(), "%s with the cut-set %q removes any run of these characters, not the suffix", ssax.CalleeName(&c.Call), cut)
+		}
+		if n == 0 {
+			ctx.OK("S10", "goproxytest.readModList#no-cutset-trim", rl.Pos(), "no multi-byte cut-set trimming of file names")
 		}
 	}
 	// ---- S7: the zip cache is keyed by the archive it packs
